@@ -161,3 +161,15 @@ def c08_python_max_min_returns_an_operand(site, w):
         return False
     ots = w.get("operand_types", [])
     return len(ots) == 2 and ots[0] != ots[1] and w.get("runtime") in ots and w.get("static") in ots
+
+
+def c06_xla_implicit_like_symbol(site, w):
+    """XLA client target with the alternative constant context: a constant created without an explicit like (boolean results of folded
+    comparisons, ...) is attached to the context's implicit symbol (_boolean_value, _float_value, ...), which the printer emits as an
+    undeclared C++ identifier"""
+    return site == "xla_client:reference-before-binding" and w.get("name") in ("_boolean_value", "_float_value", "_integer_value", "_complex_value", "_value")
+
+
+def c06_xla_python_boolean_literal(site, w):
+    """XLA client target: a boolean constant inside a compile-time constant expression is printed with Python's spelling (True / False)"""
+    return site == "xla_client:constant-expression-not-evaluable" and any(s in w.get("error", "") for s in ("unbound constant name True", "unbound constant name False"))
